@@ -182,6 +182,8 @@ pub struct Ctx {
     /// Which violation keys this check reports (explorers are shared between properties;
     /// e.g. C17 only reports `panic|...` keys, C01 only `*.bounds.*`).
     pub filter: fn(&str) -> bool,
+    /// Observer runs (C11/C12/C17/C18) drive the family explorers at reduced bounds.
+    pub reduced: bool,
 }
 
 fn accept_all(_: &str) -> bool {
@@ -209,7 +211,13 @@ impl Ctx {
             states: AtomicU64::new(0),
             transitions: AtomicU64::new(0),
             filter: accept_all,
+            reduced: false,
         }
+    }
+
+    pub fn reduced(mut self) -> Self {
+        self.reduced = true;
+        self
     }
 
     pub fn with_filter(mut self, f: fn(&str) -> bool) -> Self {
